@@ -807,3 +807,33 @@ func definitelyNonNilError(v ssa.Value) bool {
 	}
 	return false
 }
+
+// mayReturnNilError: the error result of ret (its last result) can be nil on this return — it is not a
+// constructed error, not an Err* global and not a value tested non-nil on a dominating edge.
+func mayReturnNilError(ret *ssa.Return) bool {
+	if len(ret.Results) == 0 {
+		return true
+	}
+	v := ret.Results[len(ret.Results)-1]
+	if !isErrorType(v.Type()) {
+		return true
+	}
+	for _, src := range flow.SpillSources(v) {
+		if flow.IsNilConst(src) {
+			return true
+		}
+		if definitelyNonNilError(src) || loadedGlobal(src) != nil {
+			continue
+		}
+		nonNil := false
+		for _, g := range flow.Guards(ret) {
+			if rl, ok := condRel(g.If.Cond, g.Taken); ok && rl.op == token.NEQ && ((rl.a == src && flow.IsNilConst(rl.b)) || (rl.b == src && flow.IsNilConst(rl.a))) {
+				nonNil = true
+			}
+		}
+		if !nonNil {
+			return true
+		}
+	}
+	return false
+}
